@@ -12,7 +12,7 @@ ASSUMPTIONS = ['hashlib sha3_*/shake_*', 'own bit-level Keccak reference (self-t
                'NIST mode = SHA-3 competition KAT convention (last partial byte holds its bits in the high positions)', 'output bits packed LSB-first (FIPS 202 B.1)']
 ANCHORS = [('keccak.py', 'Keccak.iterblocks'), ('keccak.py', 'Keccak.__call__'), ('keccak.py', 'State.load'), ('keccak.py', 'State.dump'), ('keccak.py', 'Round'),
            ('keccak.py', 'rot'), ('keccak.py', 'Keccak.duplex'), ('keccak.py', 'Keccak.f'), ('sha.py', 'SHA3.__call__'), ('sha.py', 'SHAKE128'), ('sha.py', 'SHAKE256')]
-REQUIRED = ['sponge==reference', 'output-length', 'sha3==hashlib', 'shake==hashlib', 'duplex==reference', 'singleton==reference', 'pad-overflow-gets-extra-block']
+REQUIRED = ['siblings:sponge==reference', 'sponge==reference', 'output-length', 'sha3==hashlib', 'shake==hashlib', 'duplex==reference', 'singleton==reference', 'pad-overflow-gets-extra-block']
 NSHARDS = 14
 SAN = {'quick': (2, 80), 'thorough': (2, 80)}
 CASE_CPU_S = 300
@@ -60,6 +60,8 @@ def cases(tier, rng):
                 yield {'k': 'sponge', 'b': b, 'r': r, 'L': L, 'mode': 'nist', 'sur': sur, 'dc': '8'}
                 if sur == 0:
                     yield {'k': 'sponge', 'b': b, 'r': r, 'L': L, 'mode': 'native', 'sur': 1, 'dc': 'r'}
+    for j in range(20 if tier == 'quick' else 150):
+        yield {'k': 'siblings', 'j': j}
     for n in (224, 256, 384, 512):
         rb = (1600 - 2 * n) // 8
         ls = set(range(0, (2 * rb + 3) if tier == 'thorough' else 20)) | {rb - 2, rb - 1, rb, rb + 1, 2 * rb - 1, 2 * rb, 2 * rb + 1, 3 * rb - 1, 3 * rb, 4 * rb, 4 * rb + 1}
@@ -104,6 +106,29 @@ def run(case, ctx, rng):
             ctx.check('pad-overflow-gets-extra-block', not is_exc(got), got, 'a digest (the two pad bits spill into an extra block)', **det)
         if not is_exc(got):
             ctx.eq('output-length', len(got), (d + 7) // 8, **det)
+    elif k == 'siblings':
+        from vmon.core import siblings
+        from crysp.sha import SHA3
+        import crysp.keccak as KM
+        ctx.cls(('siblings', case['j'] % 5))
+        specs = []
+        for t, (b, r) in enumerate(rng.sample([(1600, 1088), (1600, 576), (200, 40), (400, 144), (800, 520), (100, 36), (50, 9), (25, 7), (1600, 1344)], 3)):
+            d = rng.choice([8, r, r + 1, 64]); L = rng.choice([0, 3, r - 1, r, r + 5, 2 * r]); mode = rng.choice(['nist', 'native'])
+            M = rng.randbytes((L + 7) // 8)
+            bits = rk.bytes2bits_nist(M, L) if mode == 'nist' else rk.bytes2bits_lsb(M, L)
+            want = rk.bits2bytes(rk.sponge(b, r, bits, d))
+            def new(b=b, r=r, d=d, mode=mode):
+                h = Keccak(b=b, r=r, len=d); h.duplexing = (mode == 'native'); return h
+            M2 = rng.randbytes(2)
+            bits2 = rk.bytes2bits_nist(M2, 16) if mode == 'nist' else rk.bytes2bits_lsb(M2, 16)
+            specs.append(('Keccak[%d,%d,%s]' % (b, r, mode), new, [('h(M,L)', (lambda o, M=M, L=L: o(M, bitlen=L) if L else o(M)), want),
+                                                                   ('h(M2)', (lambda o, M2=M2: o(M2)), rk.bits2bytes(rk.sponge(b, r, bits2, d)))]))
+        n = rng.choice([224, 256, 384, 512]); X = rng.randbytes(rng.choice([0, 10, 150]))
+        specs.append(('SHA3-%d' % n, (lambda n=n: SHA3(n)), [('h(X)', (lambda o, X=X: o(X)), hashlib.new('sha3_%d' % n, X).digest())]))
+        n2 = rng.choice([224, 256, 384, 512]); Y = rng.randbytes(9)
+        specs.append(('keccak_%d singleton' % n2, (lambda n2=n2: getattr(KM, 'keccak_%d' % n2)),
+                      [('h(Y)', (lambda o, Y=Y: o(Y)), rk.bits2bytes(rk.sponge(1600, 1600 - 2 * n2, rk.bytes2bits_nist(Y, 72), n2)))]))
+        siblings(ctx, rng, 'siblings:sponge==reference', specs, late=specs.pop(0))
     elif k == 'duplex':
         b, r = case['b'], case['r']
         if r < 3:
